@@ -88,13 +88,20 @@ def cases(tier, seed):
                        'mps_exclude': kind.startswith('mps') and (ci // 2) % 2 == 1}
                 cs.append({'cfg': cfg, 'seqs': allseq[i:i + chunk], 'seed': seed * 104729 + ci})
                 ci += 1
+    # the repository's own tests under the in-situ observer contract (state_dict / mode flags /
+    # requires_grad unchanged by every export / summary / get_cost call they make)
+    from vf import suitewl
+    cs += suitewl.cases(tier, select=('test_methods/',),
+                        slow_in_quick=('test_pit_search.py::TestPITSearch::test_combined_loss_const_labels',
+                                       'test_combined_loss_channel'))
     return cs
 
 
 def worker_setup(ctx):
     from vf import neutral
     neutral.enable(ctx)      # neutral prefixes after conversion in half of the cases
-    pass
+    from vf.mon import insitu
+    insitu.install_observers(ctx)    # in situ: every outermost export / summary / get_cost call
 
 
 def do_op(m, op, record):
@@ -128,6 +135,10 @@ def do_op(m, op, record):
 
 
 def run_case(case, ctx):
+    if case.get('kind') == 'repo-suite':
+        from vf import suitewl
+        suitewl.run(case, ctx, ('c18.insitu_observer',))
+        return
     kind = case['cfg']['kind']
     for seq in case['seqs']:
         try:
